@@ -475,14 +475,20 @@ def _load_kwargs(*args, **kwargs) -> Geometry:
 
     def handle_path():
         from ..path import Path2D, Path3D
+        from ..path.exchange.misc import dict_to_path
 
-        shape = np.shape(kwargs["vertices"])
+        data = kwargs
+        if any(isinstance(e, dict) for e in data["entities"]):
+            # entities were serialized by `Path.export(file_type="dict")`
+            data = dict_to_path(data)
+
+        shape = np.shape(data["vertices"])
         if len(shape) < 2:
             return Path2D()
         if shape[1] == 2:
-            return Path2D(**kwargs)
+            return Path2D(**data)
         elif shape[1] == 3:
-            return Path3D(**kwargs)
+            return Path3D(**data)
         else:
             raise ValueError("Vertices must be 2D or 3D!")
 
